@@ -31,7 +31,7 @@ def mk(fx, np, t, codes, shape=None, dirty=False, **cfg):
     return fx.Fxp(a, bool(s), w, f, raw=True, **cfg)
 
 
-HIST = ['inplace', 'view', 'resign', 'elementwise', 'intfmt', 'fortran', 'transposed', 'intval', 'element']
+HIST = ['inplace', 'view', 'resign', 'elementwise', 'intfmt', 'fortran', 'transposed', 'intval', 'element', 'shifted']
 
 
 def warm_up(fx, np, X):
@@ -53,6 +53,7 @@ def mk_hist(fx, np, t, codes, shape=None, mode='inplace', **cfg):
       resign      - created with the opposite signedness, resized by sign only, used, then written in place
       fortran     - a 2-D operand stored in Fortran (column-major) order      transposed - the .T view of a C-ordered 2-D operand
                     (both hold the codes in the same LOGICAL order; only the memory layout differs)
+      shifted     - the operand is the result of `y >> 1` in trunc mode (same format; y held the doubled codes)
       element     - (scalar operands) the operand is an ELEMENT taken from an array by an integer index: its value is a NumPy scalar
       intval      - (n_frac <= 0) built BY VALUE from Python integers: the value type of the object is int and reads return integer arrays
       intfmt      - created from integers in the INTEGER format of the same word (n_frac = 0), resized in place to n_frac, used, written in place"""
@@ -76,6 +77,15 @@ def mk_hist(fx, np, t, codes, shape=None, mode='inplace', **cfg):
             X = fx.Fxp(np.ascontiguousarray(a2.T), bool(s), w, f, raw=True, **cfg).T
         warm_up(fx, np, X)
         X.reset()
+        return X
+    if mode == 'shifted' and all(lo <= 2 * c <= hi for c in clist) and w < 63:
+        cfg2 = dict(cfg); cfg2['shifting'] = 'trunc'
+        Y0 = fx.Fxp(arr([2 * c for c in clist]), bool(s), w, f, raw=True, **cfg2)
+        X = Y0 >> 1
+        if common.codes_of(X) != clist or (int(X.n_word), int(X.n_frac)) != (w, f):
+            raise AssertionError('trunc-mode shift did not give the intended codes')
+        if 'shifting' in cfg:
+            X.config.shifting = cfg['shifting']
         return X
     if mode == 'element' and scalar:
         A = fx.Fxp(np.array([other[0], clist[0], other[0]], dtype=dt), bool(s), w, f, raw=True, **cfg)
@@ -181,6 +191,11 @@ def observe_arith(fx, np, props, op, tx, ty, cxs, cys, route='operator', sizing=
         T = None
         if target:
             T = fx.Fxp(None, bool(tfmt[0]), tfmt[1], tfmt[2], rounding=tmodes[0], overflow=tmodes[1])
+        if T is not None and target == 'out_like':
+            # the template has a HISTORY (an accumulator reused as template): it overflowed, underflowed and was inexact before.
+            # A result made out_like it is a new object: its flags tell what happened in THIS operation only
+            T(2.0 ** (tfmt[1] - tfmt[2] + 2) + 2.0 ** (-tfmt[2] - 2))
+            T(-(2.0 ** (tfmt[1] - tfmt[2] + 2)) - 2.0 ** (-tfmt[2] - 2))
         if route in ('operator', 'iop'):
             X.config.op_sizing = sizing
             X.config.op_method = method
